@@ -155,6 +155,23 @@ def layoutOk (f : Frame) : Bool :=
   && (f.hasDA || f.saOffSp == f.finalSize + f.arch.retSize)
   && decide (f.callAlign ≤ f.finalAlign) && decide (f.localAlign ≤ f.finalAlign)
 
+/-! ### call area of a frame the Compiler built: the stores the register allocator emits before a call
+
+The lowering of an invoke writes stack arguments and by-reference temporaries through `sp`. Every such store must lie inside the
+call area `[0, call_stack_size)` the frame reports; in particular none may reach the local area `[local_offset, local_offset+size)`. -/
+
+/-- verdict on one store `(offset from sp, size)` -/
+def callAreaStore (callSize localOff localSize : Nat) (st : Int × Nat) : Option String :=
+  if st.1 < 0 then some "store-below-sp"
+  else if st.2 = 0 then some "store-of-unknown-size"
+  else if st.1.toNat + st.2 ≤ callSize then none
+  else if st.1.toNat < localOff + localSize ∧ localOff < st.1.toNat + st.2 then some "store-hits-local-area"
+  else some "store-outside-call-area"
+
+def callAreaMonitor (callSize localOff localSize : Nat) (stores : List (Int × Nat)) : Option String :=
+  if callSize ≤ localOff then (stores.filterMap (callAreaStore callSize localOff localSize)).head?
+  else some "call-area-overlaps-local-area"
+
 /-! ### monitor: the property on one (frame, prolog, epilog, entry stack position) -/
 
 def initGp (r : Nat) : Nat := 0x10000000 + r * 0x101
